@@ -13,7 +13,7 @@ RULE = ('Model-based, histories: generated sequences (1..60 steps) of public edi
         'and equal to list positions, cells/forks lookups exact, every line referenced from exactly its driver output pin and reader input pin and '
         'from nowhere else, fork outputs gap-free, ports live, stats equal recomputed counts, and the whole graph equals the model. '
         'Part machine: the same interpreter driven by a Hypothesis RuleBasedStateMachine. non-trivial: a removal of a non-last node or line followed '
-        'by >= 2 further edits, or an eliminate/substitute followed by edits; distinct by SHA-1 of the history.')
+        'by >= 2 further edits, or an eliminate/substitute followed by edits; distinct by SHA-1 of the history. Implementations for substitute include hand-wired ones with cell-kind ports read inside, two of them edited in place (reader lines of a port removed again).')
 ASSUMPTIONS = ['well-formed use only: explicit pins on free positions, a fork has at most one input line (pin 0, not from itself or from a fork it feeds), nodes are removed '
                'after their lines and after being taken off the port list, removing a removed line or node again is a no-op',
                'substitute: the model does not predict names of copied-in nodes; untouched nodes/lines must be preserved and the result must be '
@@ -70,6 +70,27 @@ def handmade_impl2():
     h = Node(c, 'h', 'not')
     Line(c, g, y); Line(c, y, h); Line(c, h, q); Line(c, y, z)
     for n in (a, b_, y, q, z):
+        c.io_nodes.append(n)
+    return c
+
+
+def handmade_impl4(variant):
+    """hand-wired with cell-kind ports ('input' / 'output' nodes): output port z is read inside by one or two inverters (feeding ports y, x).
+    variant 1: the line z -> first inverter is removed again (in-place edit: z keeps an empty output pin); variant 2: the second one is removed"""
+    from kyupy.circuit import Circuit, Node, Line
+    c = Circuit(f'hand4_{variant}')
+    a = Node(c, 'a', 'input')
+    z, y, x = Node(c, 'z', 'output'), Node(c, 'y', 'output'), Node(c, 'x', 'output')
+    bf, i1, i2 = Node(c, 'bf', 'buf'), Node(c, 'i1', 'inv'), Node(c, 'i2', 'inv')
+    Line(c, a, bf); Line(c, bf, z)
+    l1 = Line(c, z, i1); Line(c, i1, y)
+    l2 = None
+    if variant != 1:
+        l2 = Line(c, z, i2)
+    Line(c, i2, x)
+    if variant == 1: l1.remove()
+    if variant == 2: l2.remove()
+    for n in (a, z, y, x):
         c.io_nodes.append(n)
     return c
 
@@ -249,7 +270,7 @@ class Interp:
     def impls(self):
         if self._impls is None:
             from kyupy import bench
-            self._impls = [bench.parse(t) for t in IMPLS] + [handmade_impl(), handmade_impl2(), handmade_impl3()]
+            self._impls = [bench.parse(t) for t in IMPLS] + [handmade_impl(), handmade_impl2(), handmade_impl3(), handmade_impl4(0), handmade_impl4(1), handmade_impl4(2)]
         return self._impls
 
     def rederive(self):
